@@ -400,6 +400,19 @@ func runCase(seed int64, idx int, pr params) *caseResult {
 					return finish()
 				}
 			}
+			// seeded overlaps (release API vs re-bind; resync pass vs re-creation)
+			if pr.interleave > 0 && i%(3*pr.faultEvery) == pr.faultEvery-1 {
+				for kind := 0; kind < 2; kind++ {
+					c, err := pre.Clone(evid.NewRng(seed, "ilt", idx*100000+i*100+kind))
+					if err != nil {
+						continue
+					}
+					c.interleaveTemplate(kind)
+					if merge(c) {
+						return finish()
+					}
+				}
+			}
 			// provider call failing cleanly
 			for k := 1; k <= nprov && k <= 4; k++ {
 				c, err := pre.Clone(evid.NewRng(seed, "prov", idx*100000+i*100+k))
